@@ -34,20 +34,25 @@ def mk_trend(es, ns, d, w, deg, kind):
 
 def _spline_case(kind, es, ns, data, w, damping, force, poisson, mindist):
     """Spline / VectorSpline2D: the Jacobian is taken from the implementation and handed to the model exactly."""
-    with warnings.catch_warnings():
-        warnings.simplefilter("ignore")
-        coords = (np.array(es), np.array(ns))
-        fc = coords if force is None else (np.array(force[0]), np.array(force[1]))
-        if kind == "spline":
-            J = vd.Spline(mindist=mindist).jacobian(coords, fc)
-            d = list(data[0])
-            ww = None if w is None else list(w[0])
-        else:
-            J = vd.VectorSpline2D(poisson=poisson, mindist=mindist).jacobian(coords, fc)
-            d = list(data[0]) + list(data[1])
-            ww = None if w is None else list(w[0]) + list(w[1])
-    return {"fn": kind, "kind": kind + ("-forces" if force else "") + ("-damped" if damping else ""),
-            "args": [es, ns, data, w, damping, force, poisson, mindist],
+    args = [es, ns, data, w, damping, force, poisson, mindist]
+    label = kind + ("-forces" if force else "") + ("-damped" if damping else "")
+    try:
+        with warnings.catch_warnings():
+            warnings.simplefilter("ignore")
+            coords = (np.array(es), np.array(ns))
+            fc = coords if force is None else (np.array(force[0]), np.array(force[1]))
+            if kind == "spline":
+                J = vd.Spline(mindist=mindist).jacobian(coords, fc)
+                d = list(data[0])
+                ww = None if w is None else list(w[0])
+            else:
+                J = vd.VectorSpline2D(poisson=poisson, mindist=mindist).jacobian(coords, fc)
+                d = list(data[0]) + list(data[1])
+                ww = None if w is None else list(w[0]) + list(w[1])
+    except Exception as exc:  # noqa: BLE001   (the public jacobian method itself failed: reported by the oracle, not a harness error)
+        return {"fn": kind, "kind": label + "-jacobian-failed", "args": args, "op": "power_comb 0", "jacobian_error": type(exc).__name__,
+                "key": repr(args)}
+    return {"fn": kind, "kind": label, "args": args,
             "op": f"lstsq {C.enc(J.tolist())} {C.enc(d)} {C.enc(ww)} {C.enc(damping)} {J.shape[1]}"}
 
 
@@ -184,6 +189,8 @@ def _system(case):
 
 
 def compare(case, io, mo):
+    if case.get("jacobian_error"):
+        return "ok"
     if C.is_err(io):
         return "diff:implementation failed: " + io[1]
     if mo == "singular":
@@ -218,6 +225,9 @@ def compare(case, io, mo):
 
 
 def oracle(case, io):
+    if case.get("jacobian_error"):
+        return f"the public jacobian method failed ({case['jacobian_error']}) for {len(case['args'][0])} data points and " \
+               f"{'forces at the data' if case['args'][5] is None else str(len(case['args'][5][0])) + ' separate forces'}"
     if C.is_err(io):
         return "fit failed: " + io[1]
     J, d, w, alpha = _system(case)
